@@ -218,14 +218,14 @@ func c17identity(c *an.Ctx) {
 	usersF := c.P.Field("nsqadmin", "Options", "AdminUsers")
 	hdrF := c.P.Field("nsqadmin", "Options", "ACLHTTPHeader")
 	n := 0
-	for _, r := range an.Returns(fn) {
-		v := an.Resolve(r.Results[0])
+	for _, rc := range returnCases(fn, 0) {
+		r, v := rc.ret, rc.val
 		if k, ok := v.(*ssa.Const); ok && k.Value != nil && k.Value.String() == "false" {
 			continue
 		}
 		n++
 		good := false
-		facts := an.FactsAt(r.Block())
+		facts := rc.facts
 		if _, isC := v.(*ssa.Const); !isC {
 			facts = append(facts, an.ExpandFact(an.Fact{V: v, True: true})...)
 		}
